@@ -4,9 +4,9 @@
 
 use super::clients::{DapClient, LspClient};
 use super::*;
-use mos_simrt::shuttle;
 use crate::commands::{lsp_command, LspArgs};
 use mos_simrt::rng::{self, Rng};
+use mos_simrt::shuttle;
 use std::collections::BTreeSet;
 use std::time::Duration;
 
@@ -46,7 +46,8 @@ pub const VARIANT_NAMES: [&str; N_VARIANTS] = [
 ];
 
 const LONG_PROGRAM: &str = ".test \"t\" {\n    ldx #0\nouter:\n    ldy #0\ninner:\n    iny\n    bne inner\n    inx\n    bne outer\n    brk\n}\n";
-const ENDLESS_SUB_PROGRAM: &str = ".test \"t\" {\n    lda #1\n    jsr forever\n    brk\nforever:\n    jmp forever\n}\n";
+const ENDLESS_SUB_PROGRAM: &str =
+    ".test \"t\" {\n    lda #1\n    jsr forever\n    brk\nforever:\n    jmp forever\n}\n";
 const SHORT_PROGRAM: &str = ".test \"t\" {\n    lda #1\n    ldx #2\n    brk\n}\n";
 
 #[derive(Clone, Debug)]
@@ -72,8 +73,14 @@ impl Case {
         Some(Case {
             state: v.get("state")?.as_u64()? as usize,
             variant: v.get("variant")?.as_u64()? as usize,
-            seed: v.get("sched_seed").and_then(|s| s.as_str()).and_then(parse_u64)?,
-            entropy_seed: v.get("entropy_seed").and_then(|s| s.as_str()).and_then(parse_u64)?,
+            seed: v
+                .get("sched_seed")
+                .and_then(|s| s.as_str())
+                .and_then(parse_u64)?,
+            entropy_seed: v
+                .get("entropy_seed")
+                .and_then(|s| s.as_str())
+                .and_then(parse_u64)?,
             knobs: ExecKnobs::from_json(v.get("knobs")?)?,
             delay_us: v.get("delay_us")?.as_u64()?,
         })
@@ -93,9 +100,17 @@ pub fn gen_case(seed: u64, k: u64) -> Case {
         net: mos_simrt::net::NetKnobs {
             max_chunk: *r.pick(&[0usize, 0, 1, 7, 64]),
             // (the flooding debugger of S15 needs socket buffers of a realistic size to fill)
-            buffer_cap: if cell / N_VARIANTS == 15 { *r.pick(&[65536usize, 4096]) } else { *r.pick(&[1usize << 20, 1 << 20, 4096, 256]) },
+            buffer_cap: if cell / N_VARIANTS == 15 {
+                *r.pick(&[65536usize, 4096])
+            } else {
+                *r.pick(&[1usize << 20, 1 << 20, 4096, 256])
+            },
         },
-        max_steps: if cell % N_VARIANTS == 3 { 3_000_000 } else { 400_000 },
+        max_steps: if cell % N_VARIANTS == 3 {
+            3_000_000
+        } else {
+            400_000
+        },
     };
     Case {
         state: cell / N_VARIANTS,
@@ -103,7 +118,8 @@ pub fn gen_case(seed: u64, k: u64) -> Case {
         seed: rng::derive(seed, "c20.sched", k),
         entropy_seed: rng::derive(seed, "c20.entropy", k),
         knobs,
-        delay_us: *r.pick(&[0u64, 0, 1_000, 10_000, 49_000, 50_000, 51_000, 200_000]) + r.below(1000) as u64,
+        delay_us: *r.pick(&[0u64, 0, 1_000, 10_000, 49_000, 50_000, 51_000, 200_000])
+            + r.below(1000) as u64,
     }
 }
 
@@ -123,9 +139,15 @@ fn sim_disk(state: usize) -> SimDisk {
     let mut d = SimDisk::new();
     d.add_dir(WS);
     if state != 12 {
-        d.add_file(format!("{}/mos.toml", WS), b"[build]\nentry = \"main.asm\"\n".to_vec());
+        d.add_file(
+            format!("{}/mos.toml", WS),
+            b"[build]\nentry = \"main.asm\"\n".to_vec(),
+        );
     }
-    d.add_file(format!("{}/main.asm", WS), program_of(state).as_bytes().to_vec());
+    d.add_file(
+        format!("{}/main.asm", WS),
+        program_of(state).as_bytes().to_vec(),
+    );
     d
 }
 
@@ -137,8 +159,23 @@ fn program_of(state: usize) -> &'static str {
     }
 }
 
+/// The arguments a debugger front end may send with `disconnect` (all legal; which one is a function of the seed)
+fn disconnect_args(seed: u64) -> Value {
+    match mos_simrt::rng::derive(seed, "c20.disconnect_args", 0) % 4 {
+        0 => json!({}),
+        1 => json!({"terminateDebuggee": false}),
+        2 => json!({"terminateDebuggee": true}),
+        _ => json!({"restart": false, "terminateDebuggee": false, "suspendDebuggee": false}),
+    }
+}
+
 /// Drive the DAP client into the requested session state. Returns false if the state could not be reached.
-fn reach_state(state: usize, seed: u64, dap: &mut Option<DapClient>, notes: &mut Vec<String>) -> bool {
+fn reach_state(
+    state: usize,
+    seed: u64,
+    dap: &mut Option<DapClient>,
+    notes: &mut Vec<String>,
+) -> bool {
     if state == 0 || state == 14 {
         return true;
     }
@@ -155,7 +192,10 @@ fn reach_state(state: usize, seed: u64, dap: &mut Option<DapClient>, notes: &mut
         return true;
     }
     let ok = (|| -> Result<(), super::clients::ClientErr> {
-        c.request("initialize", json!({"clientID": "sim", "linesStartAt1": true, "columnsStartAt1": true}))?;
+        c.request(
+            "initialize",
+            json!({"clientID": "sim", "linesStartAt1": true, "columnsStartAt1": true}),
+        )?;
         if state == 1 {
             return Ok(());
         }
@@ -167,10 +207,16 @@ fn reach_state(state: usize, seed: u64, dap: &mut Option<DapClient>, notes: &mut
         if state == 17 {
             // the launch is on its way (it needs the language server's context) while the editor sends an edit
             // (the analysis holds that context); the caller sends the edit right after this returns
-            c.send_only("launch", json!({"workspace": WS, "testRunner": {"testCaseName": "t"}}))?;
+            c.send_only(
+                "launch",
+                json!({"workspace": WS, "testRunner": {"testCaseName": "t"}}),
+            )?;
             return Ok(());
         }
-        c.request("launch", json!({"workspace": WS, "testRunner": {"testCaseName": "t"}}))?;
+        c.request(
+            "launch",
+            json!({"workspace": WS, "testRunner": {"testCaseName": "t"}}),
+        )?;
         if state == 11 {
             // an impatient client: pause / continue while the machine is still launching
             c.request("pause", json!({"threadId": 1}))?;
@@ -224,27 +270,55 @@ fn reach_state(state: usize, seed: u64, dap: &mut Option<DapClient>, notes: &mut
                     ("evaluate", json!({"expression": "no_such_symbol"})),
                     ("evaluate", json!({"expression": ""})),
                     ("evaluate", json!({"expression": "cpu.flags.nonsense"})),
-                    ("setVariable", json!({"variablesReference": 1, "name": "A", "value": "999"})),
-                    ("setVariable", json!({"variablesReference": 1, "name": "PC", "value": "1"})),
-                    ("setVariable", json!({"variablesReference": 1, "name": "X", "value": "%2"})),
+                    (
+                        "setVariable",
+                        json!({"variablesReference": 1, "name": "A", "value": "999"}),
+                    ),
+                    (
+                        "setVariable",
+                        json!({"variablesReference": 1, "name": "PC", "value": "1"}),
+                    ),
+                    (
+                        "setVariable",
+                        json!({"variablesReference": 1, "name": "X", "value": "%2"}),
+                    ),
                     ("completions", json!({"text": "cpu.", "column": 99})),
                     ("completions", json!({"text": "cpu.flags.", "column": 0})),
                     ("completions", json!({"text": "é", "column": 1})),
-                    ("setBreakpoints", json!({"source": {"path": main}, "breakpoints": [{"line": 0}]})),
-                    ("setBreakpoints", json!({"source": {"path": main}, "breakpoints": [{"line": 1, "column": 0}]})),
-                    ("setBreakpoints", json!({"source": {"path": main}, "breakpoints": [{"line": 4000000000u64}]})),
-                    ("setBreakpoints", json!({"source": {"path": "/nowhere/else.asm"}, "breakpoints": [{"line": 2}]})),
+                    (
+                        "setBreakpoints",
+                        json!({"source": {"path": main}, "breakpoints": [{"line": 0}]}),
+                    ),
+                    (
+                        "setBreakpoints",
+                        json!({"source": {"path": main}, "breakpoints": [{"line": 1, "column": 0}]}),
+                    ),
+                    (
+                        "setBreakpoints",
+                        json!({"source": {"path": main}, "breakpoints": [{"line": 4000000000u64}]}),
+                    ),
+                    (
+                        "setBreakpoints",
+                        json!({"source": {"path": "/nowhere/else.asm"}, "breakpoints": [{"line": 2}]}),
+                    ),
                     ("setBreakpoints", json!({"source": {}, "breakpoints": []})),
                     ("variables", json!({"variablesReference": 99})),
                     ("scopes", json!({"frameId": 99})),
                     ("stackTrace", json!({"threadId": 99})),
                     ("frobnicate", json!({})),
-                    ("launch", json!({"workspace": WS, "testRunner": {"testCaseName": "t"}})),
-                    ("launch", json!({"workspace": WS, "testRunner": {"testCaseName": "no_such_test"}})),
+                    (
+                        "launch",
+                        json!({"workspace": WS, "testRunner": {"testCaseName": "t"}}),
+                    ),
+                    (
+                        "launch",
+                        json!({"workspace": WS, "testRunner": {"testCaseName": "no_such_test"}}),
+                    ),
                     ("initialize", json!({"clientID": "again"})),
                     ("configurationDone", Value::Null),
                 ];
-                let mut r = mos_simrt::rng::Rng::new(mos_simrt::rng::derive(seed, "c20.awkward", 0));
+                let mut r =
+                    mos_simrt::rng::Rng::new(mos_simrt::rng::derive(seed, "c20.awkward", 0));
                 c.timeout = Duration::from_secs(3);
                 for _ in 0..3 {
                     let (cmd, args) = r.pick(&awkward).clone();
@@ -263,19 +337,25 @@ fn reach_state(state: usize, seed: u64, dap: &mut Option<DapClient>, notes: &mut
             }
             5 => {
                 clock::sleep(Duration::from_millis(3));
-                c.request("disconnect", json!({}))?;
+                c.request("disconnect", disconnect_args(seed))?;
             }
             7 => {
-                if c.wait_event("terminated", Duration::from_secs(10)).is_none() {
+                if c.wait_event("terminated", Duration::from_secs(10))
+                    .is_none()
+                {
                     return Err(super::clients::ClientErr::Timeout);
                 }
             }
             8 => {
                 // first session ends with disconnect, a second debugger attaches and stays idle
                 clock::sleep(Duration::from_millis(3));
-                c.request("disconnect", json!({}))?;
-                let mut c2 = DapClient::connect(PORT, 400).ok_or(super::clients::ClientErr::Closed)?;
-                c2.request("initialize", json!({"clientID": "sim2", "linesStartAt1": true, "columnsStartAt1": true}))?;
+                c.request("disconnect", disconnect_args(seed))?;
+                let mut c2 =
+                    DapClient::connect(PORT, 400).ok_or(super::clients::ClientErr::Closed)?;
+                c2.request(
+                    "initialize",
+                    json!({"clientID": "sim2", "linesStartAt1": true, "columnsStartAt1": true}),
+                )?;
                 c = c2;
             }
             10 => {
@@ -339,14 +419,18 @@ pub fn scenario(case: &Case, slot: &Arc<StdMutex<Option<Verdict>>>) {
         let edited = format!("{}\n// edited\n", program_of(state));
         let _ = lsp.did_change(&format!("{}/main.asm", WS), &edited);
     }
-    hist("harness", "state_reached", json!({"state": STATE_NAMES[state], "reached": v.state_reached}));
+    hist(
+        "harness",
+        "state_reached",
+        json!({"state": STATE_NAMES[state], "reached": v.state_reached}),
+    );
     clock::sleep(Duration::from_micros(case.delay_us));
     mos_simrt::probe::hit("c20_shutdown_begins");
     // the shutdown variant
     let dap_disconnect = |dap: &mut Option<DapClient>| {
         if let Some(c) = dap.as_mut() {
             if !c.dead {
-                let _ = c.send_only("disconnect", json!({}));
+                let _ = c.send_only("disconnect", disconnect_args(case.seed));
             }
         }
     };
@@ -359,7 +443,10 @@ pub fn scenario(case: &Case, slot: &Arc<StdMutex<Option<Verdict>>>) {
             }
             if let Some(mut late) = DapClient::connect(PORT, 40) {
                 late.timeout = Duration::from_millis(300);
-                let _ = late.send_only("initialize", json!({"clientID": "late", "linesStartAt1": true, "columnsStartAt1": true}));
+                let _ = late.send_only(
+                    "initialize",
+                    json!({"clientID": "late", "linesStartAt1": true, "columnsStartAt1": true}),
+                );
                 clock::sleep(Duration::from_micros(case.delay_us % 120_000));
                 late_dap = Some(late);
             }
@@ -429,7 +516,11 @@ pub fn scenario(case: &Case, slot: &Arc<StdMutex<Option<Verdict>>>) {
     // "leaves no listening socket behind": once main() has returned the process is gone,
     // unless a thread the glue code joins is still alive; sockets are judged at this instant
     v.ports_bound_at_exit = net::bound_ports();
-    hist("harness", "process_exit", json!({"status": v.status, "ports": v.ports_bound_at_exit}));
+    hist(
+        "harness",
+        "process_exit",
+        json!({"status": v.status, "ports": v.ports_bound_at_exit}),
+    );
     if let Some(c) = dap.as_mut() {
         c.drain();
     }
@@ -484,21 +575,30 @@ fn judge(case: &Case, v: &Verdict, cell: &str) -> Option<Found> {
         return Some(Found {
             class: "exit_status".into(),
             sig: format!("exit_status_{}:{}", v.status.unwrap_or(-1), cell),
-            message: format!("{}: exit status {:?} ({}) instead of 0", cell, v.status, v.error_text),
+            message: format!(
+                "{}: exit status {:?} ({}) instead of 0",
+                cell, v.status, v.error_text
+            ),
         });
     }
     if v.status == Some(0) && !v.ports_bound_at_exit.is_empty() {
         return Some(Found {
             class: "listening_socket_left".into(),
             sig: format!("listening_socket_left:{}", cell),
-            message: format!("{}: the process returned 0 but a listener is still bound on {:?}", cell, v.ports_bound_at_exit),
+            message: format!(
+                "{}: the process returned 0 but a listener is still bound on {:?}",
+                cell, v.ports_bound_at_exit
+            ),
         });
     }
     if case.variant == 2 && v.status == Some(101) {
         return Some(Found {
             class: "exit_status".into(),
             sig: format!("exit_status_101:{}", cell),
-            message: format!("{}: closing the pipe terminated the process by a panic (status 101)", cell),
+            message: format!(
+                "{}: closing the pipe terminated the process by a panic (status 101)",
+                cell
+            ),
         });
     }
     None
@@ -506,8 +606,17 @@ fn judge(case: &Case, v: &Verdict, cell: &str) -> Option<Found> {
 
 pub fn run_case(case: &Case) -> RunResult {
     let c2 = case.clone();
-    let out = run_execution(case.seed, case.entropy_seed, sim_disk(case.state), &case.knobs, move |slot| scenario(&c2, slot));
-    let cell = format!("{}/{}", STATE_NAMES[case.state], VARIANT_NAMES[case.variant]);
+    let out = run_execution(
+        case.seed,
+        case.entropy_seed,
+        sim_disk(case.state),
+        &case.knobs,
+        move |slot| scenario(&c2, slot),
+    );
+    let cell = format!(
+        "{}/{}",
+        STATE_NAMES[case.state], VARIANT_NAMES[case.variant]
+    );
     let verdict = out.result.clone();
     let mut found = None;
     let mut inconclusive = false;
@@ -540,11 +649,16 @@ pub fn run_case(case: &Case) -> RunResult {
                 // inconclusive, never a verdict (counted; too many of them is a harness error)
                 inconclusive = true;
             } else {
-            found = Some(Found {
-                class: class.into(),
-                sig: format!("{}:{}:{}", class, what, cell),
-                message: format!("{}: {} at {}", cell, p.message.chars().take(600).collect::<String>(), short_loc(&p.location)),
-            });
+                found = Some(Found {
+                    class: class.into(),
+                    sig: format!("{}:{}:{}", class, what, cell),
+                    message: format!(
+                        "{}: {} at {}",
+                        cell,
+                        p.message.chars().take(600).collect::<String>(),
+                        short_loc(&p.location)
+                    ),
+                });
             }
         }
         (None, Some(v)) => {
@@ -605,12 +719,27 @@ fn replay(cli: &Cli, path: &std::path::Path) -> i32 {
     let r = run_case(&case);
     drop(silencer);
     if cli.opts.contains_key("dump") {
-        println!("{}", serde_json::to_string_pretty(&history_json(&r.history, 400)).unwrap());
+        println!(
+            "{}",
+            serde_json::to_string_pretty(&history_json(&r.history, 400)).unwrap()
+        );
         println!("verdict: {:?}", r.verdict);
     }
     let rr = match r.found {
-        Some(f) => ReplayResult { violated: true, sig: f.sig, class: f.class, message: f.message, log_hash: r.trace },
-        None => ReplayResult { violated: false, sig: "-".into(), class: "-".into(), message: format!("{:?}", r.verdict), log_hash: r.trace },
+        Some(f) => ReplayResult {
+            violated: true,
+            sig: f.sig,
+            class: f.class,
+            message: f.message,
+            log_hash: r.trace,
+        },
+        None => ReplayResult {
+            violated: false,
+            sig: "-".into(),
+            class: "-".into(),
+            message: format!("{:?}", r.verdict),
+            log_hash: r.trace,
+        },
     };
     print_replay_result(PROP, &rr)
 }
@@ -648,11 +777,17 @@ pub fn main(cli: &Cli) -> i32 {
         Tier::Quick => 24u64,
         Tier::Thorough => 1_200u64,
     };
-    let n = cli.runs.unwrap_or(per_cell * (N_STATES * N_VARIANTS) as u64);
+    let n = cli
+        .runs
+        .unwrap_or(per_cell * (N_STATES * N_VARIANTS) as u64);
     let seed = cli.seed;
     if cli.mode.as_deref() == Some("gen") {
         // print the case with index --from (and run it with --dump for its history)
-        let k: u64 = cli.opts.get("from").and_then(|s| s.parse().ok()).unwrap_or(0);
+        let k: u64 = cli
+            .opts
+            .get("from")
+            .and_then(|s| s.parse().ok())
+            .unwrap_or(0);
         let case = gen_case(seed, k);
         let silencer = StderrSilencer::new();
         let r = run_case(&case);
@@ -684,7 +819,10 @@ pub fn main(cli: &Cli) -> i32 {
             if r.nontrivial {
                 acc.nontrivial.insert(r.trace);
             }
-            let cell = format!("{}/{}", STATE_NAMES[case.state], VARIANT_NAMES[case.variant]);
+            let cell = format!(
+                "{}/{}",
+                STATE_NAMES[case.state], VARIANT_NAMES[case.variant]
+            );
             let e = acc.cells.entry(cell).or_insert((0, 0, 0));
             e.0 += 1;
             if r.verdict.as_ref().map(|v| v.state_reached).unwrap_or(false) {
@@ -705,15 +843,28 @@ pub fn main(cli: &Cli) -> i32 {
                 *acc.probes.entry(k2.to_string()).or_insert(0) += v;
             }
             for (k2, v) in [
-                ("short_reads", r.net.short_reads), ("short_writes", r.net.short_writes), ("blocked_writes", r.net.blocked_writes),
-                ("accepts", r.net.accepts), ("binds", r.net.binds), ("bind_conflicts", r.net.bind_conflicts),
-                ("fin", r.net.fin), ("rst", r.net.rst), ("connect_refused", r.net.refused),
+                ("short_reads", r.net.short_reads),
+                ("short_writes", r.net.short_writes),
+                ("blocked_writes", r.net.blocked_writes),
+                ("accepts", r.net.accepts),
+                ("binds", r.net.binds),
+                ("bind_conflicts", r.net.bind_conflicts),
+                ("fin", r.net.fin),
+                ("rst", r.net.rst),
+                ("connect_refused", r.net.refused),
             ] {
                 *acc.net.entry(k2.to_string()).or_insert(0) += v;
             }
             let mut dg = r.trace;
             dg = rng::fnv64_extend(dg, &r.steps.to_le_bytes());
-            dg = rng::fnv64_extend(dg, format!("{:?}", r.verdict.as_ref().map(|v| (v.status, v.hang, v.wait_us))).as_bytes());
+            dg = rng::fnv64_extend(
+                dg,
+                format!(
+                    "{:?}",
+                    r.verdict.as_ref().map(|v| (v.status, v.hang, v.wait_us))
+                )
+                .as_bytes(),
+            );
             if let Some(f) = &r.found {
                 dg = rng::fnv64_extend(dg, f.sig.as_bytes());
             }
@@ -785,7 +936,10 @@ pub fn main(cli: &Cli) -> i32 {
         batch = rng::fnv64_extend(batch, &h.to_le_bytes());
     }
     if determinism {
-        println!("DETERMINISM engine=threadsim/C20 runs={} batch_hash={:016x}", acc.runs, batch);
+        println!(
+            "DETERMINISM engine=threadsim/C20 runs={} batch_hash={:016x}",
+            acc.runs, batch
+        );
         return EXIT_OK;
     }
     acc.samples.sort_by_key(|(k, _)| *k);
@@ -801,7 +955,17 @@ pub fn main(cli: &Cli) -> i32 {
         ev.samples.push(json!({"note": "no violation-free execution with a debugger attached in this batch", "case": gen_case(seed, 0).to_json()}));
     }
     ev.set("grid_exhaustive", json!(true));
-    ev.set("cells", json!(acc.cells.iter().map(|(k, v)| (k.clone(), json!({"executions": v.0, "state_reached": v.1, "violations": v.2}))).collect::<BTreeMap<_, _>>()));
+    ev.set(
+        "cells",
+        json!(acc
+            .cells
+            .iter()
+            .map(|(k, v)| (
+                k.clone(),
+                json!({"executions": v.0, "state_reached": v.1, "violations": v.2})
+            ))
+            .collect::<BTreeMap<_, _>>()),
+    );
     ev.set("state_not_reached", json!(acc.state_not_reached));
     ev.set("inconclusive_step_budget", json!(acc.inconclusive));
     ev.set("exit_statuses", json!(acc.statuses));
@@ -811,7 +975,10 @@ pub fn main(cli: &Cli) -> i32 {
     ev.set("clock_jumps_at_quiescence", json!(acc.quiescence_jumps));
     ev.set("early_timer_firings", json!(acc.early_firings));
     ev.set("distinct_interleavings", json!(acc.traces.len()));
-    ev.set("interleaving_measure", json!("distinct hashes of the sequence of tasks chosen at context switches, per grid cell"));
+    ev.set(
+        "interleaving_measure",
+        json!("distinct hashes of the sequence of tasks chosen at context switches, per grid cell"),
+    );
     ev.set("fault_kinds_injected", json!(acc.net));
     ev.set("probes", json!(acc.probes));
     ev.set("violation_signatures_seen_in_batch", json!(acc.sigs));
